@@ -154,7 +154,12 @@ def check(ctx):
     TEMPL = ["module\u00a7m (`ifdef A_ input`else output`endif wire w); endmodule\n",
              "module m;\u00a7\n`ifdef A_\n`else\n wire a;`endif wire b;\n`ifndef A_ wire c;`endif wire d;\nendmodule\n",
              "`define T_ 1\nmodule\u00a7m; wire [`T_:0] x;`ifdef T_ wire y;`endif wire z; endmodule\n",
-             "module m;\u00a7wire a;`ifdef U_ `elsif V_ `else wire e;`endif wire f; endmodule\n"]
+             "module m;\u00a7wire a;`ifdef U_ `elsif V_ `else wire e;`endif wire f; endmodule\n",
+             # usages of macros without a body, written directly against the preceding token: the trivia behind them is all
+             # that keeps the neighbouring words apart
+             "`define KEEP_\nmodule m; reg`KEEP_\u00a7r; wire`KEEP_\u00a7w; endmodule\n",
+             "`define F_(x)\n`define V_ 3\nmodule m; reg`F_(1)\u00a7q; wire [`V_\u00a7:0] v; endmodule\n",
+             "`define E_\nmodule m; initial begin`E_\u00a7x = 1; end`E_\u00a7endmodule\n"]
     tref = [Case("tr%d" % i).add("want", "tree", "text").add("run", "preprocess_str", hx(t.replace("\u00a7", " ")), hx("t.sv"))
             .add("run", "parse_sv_str", hx(t.replace("\u00a7", " ")), hx("t.sv")) for i, t in enumerate(TEMPL)]
     timpl = run_harness("api", tref, "c12t", timeout=600)
@@ -163,6 +168,10 @@ def check(ctx):
         tl = [l for l in lines if l.startswith("tree ")]
         tx = [l for l in lines if l.startswith("text ")]
         if not tl or not tx:
+            # the templates are SystemVerilog: with one blank at the mark they are accepted
+            cc = Case("m%d" % n); n += 1
+            cc.add("want", "tree").add("run", "parse_sv_str", hx(t.replace("\u00a7", " ")), hx("t.sv"))
+            cases.append(cc); meta[cc.id] = ("template-rejected", t.replace("\u00a7", " "), t.replace("\u00a7", " "), None)
             continue
         sk = svtree.skeleton(svtree.parse_tree_line(tl[0]), text=unhx(tx[0].split()[1]))
         for tv in DIRECTIVES + COMMENTS + BLANKS:
@@ -185,6 +194,9 @@ def check(ctx):
         ctx.count(kind)
         ctx.corr_nontrivial.add(sha(t2))
         if kind == "broken":
+            continue
+        if kind == "template-rejected":
+            bad = bad or (kind, s, t2, "a source with a macro usage / conditional directive between its tokens is rejected with a single blank as trivia")
             continue
         if not tl:
             bad = bad or (kind, s, t2, "an accepted source is rejected after its trivia was replaced: %s" % [l for l in lines if l.startswith("err")][:1]); continue
